@@ -508,7 +508,7 @@ fn build_raw(ty: &Ty, vals: &[V], var: u64) -> ArrayRef {
                 })
                 .collect();
             let child = build_raw(inner, &flat, var);
-            Arc::new(FixedSizeListArray::try_new(field, *n as i32, child, nulls_of(vals, var)).expect("fsl"))
+            Arc::new(FixedSizeListArray::try_new_with_length(field, *n as i32, child, nulls_of(vals, var), vals.len()).expect("fsl"))
         }
         Ty::Struct(fs) => {
             let cols: Vec<ArrayRef> = fs
@@ -1022,7 +1022,8 @@ fn pick_or_null(pool: &[V], rng: &mut Rng, null_one_in: u64) -> V {
 
 /// a column of `len` rows drawn from a small pool (duplicates) with nulls
 fn gen_col(ty: &Ty, rng: &mut Rng, len: usize) -> Vec<V> {
-    let pool = gen_pool(ty, rng, 2 + rng.usize(5));
+    let np = 2 + rng.usize(5);
+    let pool = gen_pool(ty, rng, np);
     let nulls = *rng.pick(&[0u64, 0, 3, 5, 2]);
     (0..len).map(|_| if nulls > 0 && rng.chance(1, nulls) { V::Null } else { rng.pick(&pool).clone() }).collect()
 }
@@ -1032,7 +1033,7 @@ fn gen_leaf(rng: &mut Rng) -> Ty {
         0..=2 => Ty::Prim(rng.pick(INT_PRIMS).to_string()),
         3..=5 => Ty::Prim(rng.pick(OTHER_PRIMS).to_string()),
         6..=8 => Ty::Bytes(rng.pick(BYTES).to_string()),
-        _ => Ty::Fsb(*rng.pick(&[0usize, 1, 3, 4, 5, 13])),
+        _ => Ty::Fsb(*rng.pick(&[1usize, 2, 3, 4, 5, 13])),
     }
 }
 /// a leaf type `rank` supports
@@ -1097,6 +1098,15 @@ fn col_tags(c: &[V]) -> String {
     )
 }
 
+fn wrap_tag(t: &Ty) -> &'static str {
+    match t {
+        Ty::Dict(..) => "dict",
+        Ty::Ree(_, v) if matches!(**v, Ty::Dict(..)) => "ree-dict",
+        Ty::Ree(..) => "ree",
+        _ => "plain",
+    }
+}
+
 fn gen_len(rng: &mut Rng) -> usize {
     match rng.below(10) {
         0 => 0,
@@ -1113,7 +1123,8 @@ fn gen_case(rng: &mut Rng) -> (String, String) {
             let ty = gen_comparable(rng, 2);
             let (l, r) = (gen_len(rng).min(8), gen_len(rng).min(8));
             // both sides from one pool so that equal values occur across the arrays
-            let pool = gen_pool(&ty, rng, 2 + rng.usize(4));
+            let np = 2 + rng.usize(4);
+            let pool = gen_pool(&ty, rng, np);
             let lc: Vec<V> = (0..l).map(|_| pick_or_null(&pool, rng, 4)).collect();
             let rc: Vec<V> = (0..r).map(|_| pick_or_null(&pool, rng, 4)).collect();
             let o = gen_opts(rng);
@@ -1222,7 +1233,8 @@ fn gen_case(rng: &mut Rng) -> (String, String) {
             let (tl, tr) = (wrap(rng, &leaf), wrap(rng, &leaf));
             let sc = *rng.pick(&["aa", "aa", "aa", "as", "sa", "ss"]);
             let len = gen_len(rng);
-            let pool = gen_pool(&leaf, rng, 2 + rng.usize(4));
+            let np = 2 + rng.usize(4);
+            let pool = gen_pool(&leaf, rng, np);
             let nl = *rng.pick(&[3u64, 4, 1000]);
             let nr = *rng.pick(&[3u64, 4, 1000]);
             let lc: Vec<V> = (0..if sc.starts_with('s') { 1 } else { len }).map(|_| pick_or_null(&pool, rng, nl)).collect();
@@ -1241,13 +1253,22 @@ fn gen_case(rng: &mut Rng) -> (String, String) {
                     col_str(&rc)
                 ),
                 format!(
-                    "op:kernel kop:{} sc:{} L{} R{} {} {}",
+                    "op:kernel kop:{} sc:{} L:{} R:{} {} {}{}",
                     op,
                     sc,
-                    ty_tags(&tl).replace(' ', "/"),
-                    ty_tags(&tr).replace(' ', "/"),
+                    wrap_tag(&tl),
+                    wrap_tag(&tr),
                     ty_tags(&leaf),
-                    if lc.len().max(rc.len()) > 0 { "nt" } else { "" }
+                    if lc.len().max(rc.len()) > 0 { "nt" } else { "" },
+                    // known finding: scalar/scalar with an encoded right operand (see known_findings.txt)
+                    if sc == "ss" && matches!(tr, Ty::Dict(..) | Ty::Ree(..)) {
+                        " kf:ss-encoded-rhs"
+                    } else if (sc == "as" && lc.is_empty() && matches!(tl, Ty::Ree(..))) || (sc == "sa" && rc.is_empty() && matches!(tr, Ty::Ree(..))) {
+                        // known finding: empty (possibly sliced) run-end array against a scalar
+                        " kf:empty-ree-vs-scalar"
+                    } else {
+                        ""
+                    }
                 ),
             )
         }
@@ -1266,7 +1287,7 @@ fn main() {
         quiet_panics();
     }
     let mut sink = Sink::new(&args.out);
-    let mut emit = |sink: &mut Sink, line: String, tags: &str| {
+    let emit = |sink: &mut Sink, line: String, tags: &str| {
         let o = run_case(&line);
         for w in o.oracle.iter().take(3) {
             sink.oracle_failure(line.clone(), w.clone(), tags);
